@@ -176,7 +176,7 @@ def run(ctx, prop):
     rng = np.random.RandomState(ctx.seed + 11)
     recs = []
     with tmp_dir(ctx) as d:
-        for j in range(160 if ctx.quick else 1500):
+        for j in range(160 if ctx.quick else 5000):
             rec = None
             with ctx.guard(prop.lower() + '.merge', dict(variant=j)):
                 rec = merge_once(ctx, d, rng, j)
